@@ -25,7 +25,8 @@ Alphabet == {
   ExtendCall(<<Elem(PB, Ext("B2", <<>>), "ok", "ok"), Elem(GSrc(<<Id("T"), Id("U")>>), Ext("G5", <<Id("T"), Id("U")>>), "ok", "ok")>>),
   ExtendCall(<<Elem(PB, Ext("B3", <<>>), "ok", "ok"), Elem(GSrc(<<Id("T")>>), Ext("X", <<>>), "paren", "ok")>>) }
 
-ProbeProg == Program(<<Struct("A", <<"probe">>, <<>>, <<SField("b", A0("B")), SField("g", P_Adt("G", <<u8, bool>>))>>),
+ProbeProg == Program(<<Struct("A", <<"probe">>, <<>>, <<SField("b", A0("B")), SField("g", P_Adt("G", <<u8, bool>>)), CField("c", A0("CW")), SField("t", P_Tup(<<u8, P_Arr(A0("TW"), 2)>>))>>),
+                       Struct("CW", <<"probe">>, <<>>, <<SField("", u32)>>), Struct("TW", <<"probe">>, <<>>, <<SField("w", bool)>>),
                        Struct("B", <<"probe">>, <<>>, <<SField("x", u8)>>),
                        Struct("G", <<"probe">>, <<Param("T"), Param("U")>>, <<SField("t", T), SField("u", U)>>)>>, <<>>)
 ProbeReg == Register(ProbeProg, <<A0("A")>>).reg
@@ -49,12 +50,13 @@ Spec == Init /\ [][Next]_vars
 
 S == SettingsOf(Base, st)
 \* derives are the union of what was registered globally, for the path, and recursively for an ancestor - by comprehension over the history
-Ancestors(path) == {r \in {<<"probe", "A">>, <<"probe", "B">>, <<"probe", "G">>} : \E ir \in IdsOfPath(ProbeReg, r) : \E ip \in IdsOfPath(ProbeReg, path) : ip \in Reach(ProbeReg, ir)}
+ProbePaths == {<<"probe", "A">>, <<"probe", "B">>, <<"probe", "G">>, <<"probe", "CW">>, <<"probe", "TW">>}
+Ancestors(path) == {r \in ProbePaths : \E ir \in IdsOfPath(ProbeReg, r) : \E ip \in IdsOfPath(ProbeReg, path) : ip \in Reach(ProbeReg, ir)}
 ExpectD(path) == DerivesOfHistory(hist, "all_d", "", FALSE) \cup DerivesOfHistory(hist, "for_d", PathStr(path), FALSE)
                  \cup UNION {DerivesOfHistory(hist, "for_d", PathStr(r), TRUE) : r \in Ancestors(path)}
 ExpectA(path) == DerivesOfHistory(hist, "all_a", "", FALSE) \cup DerivesOfHistory(hist, "for_a", PathStr(path), FALSE)
                  \cup UNION {DerivesOfHistory(hist, "for_a", PathStr(r), TRUE) : r \in Ancestors(path)}
-DerivesAreUnions == \A p \in {<<"probe", "A">>, <<"probe", "B">>, <<"probe", "G">>} :
+DerivesAreUnions == \A p \in ProbePaths :
                       FlatDerives(ProbeReg, S, p) = ExpectD(p) /\ FlatAttrs(ProbeReg, S, p) = ExpectA(p)
 NoExtend == \A i \in DOMAIN hist : hist[i].op # "extend"
 RulesAreLastInsert == NoExtend => st.rules = RulesOfHistory(hist, 1, <<>>)
